@@ -1529,7 +1529,11 @@ class AllConnGraph(nx.DiGraph):
                 if indices is None:
                     model._inputs._abs_set_val(node[1], tval)
                 else:
-                    model._inputs._abs_set_val(node[1], tval, idx=indices())
+                    idx = indices()
+                    if np.ndim(idx) == 0 and np.size(tval) == 1:
+                        # a single entry is addressed: assign a scalar, not a 1-element array
+                        tval = np.asarray(tval).reshape(-1)[0]
+                    model._inputs._abs_set_val(node[1], tval, idx=idx)
         else:
             srcval = src_meta.val
 
